@@ -74,7 +74,7 @@ def configs(pid, quick):
     if quick:
         return [("ctl", C({2}, {2}, events=2, env={"fail", "mode", "ctl", "status"})),
                 ("ctlscan", C({2}, {2}, events=2, env={"mode", "ctl", "ctlscan", "drop"}))]
-    return [("ctlscan", C({2, 3}, {2, 3}, events=2, env={"fail", "mode", "ctl", "ctlscan", "drop"})),
+    return [("ctlscan", C({2}, {2}, events=3, env={"fail", "mode", "ctl", "ctlscan", "drop"})),
             ("ctl", C({2}, {2}, events=3, env={"fail", "mode", "ctl", "status"})),
             ("ctl-topology", C({2, 3}, {2}, events=2, env={"ctl", "topo", "fail", "mode"})),
             ("2sessions", C({2}, {2}, sessions={1, 2}, events=2, env={"fail", "mode", "ctl"}))]
